@@ -1,17 +1,20 @@
 """C19 - opening arbitrary bytes fails only with ELFError; header enumeration terminates within bounds.
 
 (a) construction:  ELFFile(BytesIO(data)) returns or raises ELFError (any subclass); any other exception
-    type is a violation (bucket = exception type + innermost elftools frame).
+    type is a violation (bucket = open|<exception type>|<innermost elftools frame>).
 (b) termination:   a fixed enumeration battery (header, num_sections, iter_sections, num_segments,
-    iter_segments, num_symbols, hash get_number_of_symbols, dynamic iter_tags, iter_notes, num_versions) is
-    run under a deterministic WORK budget: number of 'line' trace events executed in elftools frames and number
-    of bytes requested from the stream.  Each battery step must stay below
-        LINE_A + LINE_B * max(len(data), 64 KiB)   line events   and
-        BYTE_A + BYTE_B * max(len(data), 64 KiB)   requested bytes.
-    Any exception type is fine in (b) ("by returning or by raising").  Wall-clock time is never consulted.
+    iter_segments, num_symbols of every symbol-table-like section, hash get_number_of_symbols, dynamic
+    iter_tags, DynamicSegment.num_symbols, iter_notes, num_versions) is run under a deterministic WORK budget:
+    the number of 'line' trace events executed in elftools frames (sys.settrace) and what is asked of the
+    stream (counting BytesIO).  Each battery step must stay below
+        LINE_B[step] * max(len(data), 64 KiB)   line events,
+        BYTE_B       * max(len(data), 64 KiB)   bytes delivered by read() in total, and the same bound for the
+                                                size asked for in one single read() call.
+    The step is aborted by raising a private BaseException from the trace function when the line budget is
+    exhausted (bucket = battery.line-budget|step=<step>).  Any exception type is fine in (b) ("by returning or by
+    raising").  Wall-clock time is never consulted.
 
-Run `python -m vf.checks.c19 measure` to re-measure the work of the battery on valid files (numbers quoted in
-ASSUMPTIONS).
+`python -m vf.checks.c19 measure` re-measures the work of the battery on the valid files (numbers quoted below).
 """
 import io
 import os
@@ -20,61 +23,78 @@ import struct
 
 from vf import core
 from vf.enc import elf as W
-from vf.choose import RndChooser, HypChooser
+from vf.choose import HypChooser
 
 ID = 'C19'
 RULE = ('Inputs: random bytes (with and without a valid e_ident prefix); EVERY truncation length of 20 generated seed '
-        'files (header-only / sections / segments / full dynamic+notes+hash+gnu-hash+versions+symtab / forced '
-        'extended-numbering, each for ELF32/64 x LSB/MSB, written by the independent writer vf/enc/elf.py) and of the '
-        'shipped ELF files <= 4 KiB (quick: <= 1 KiB, others at header-table boundaries +-1 and a stride); truncation '
-        'of larger shipped files at every header-table entry boundary +-1; every single-byte substitution of the '
-        'first 64 bytes with {0x00,0xff,+1,^0x80}; field-aware corruption (offsets of every Ehdr/Shdr/Phdr/Dyn/Nhdr/'
-        'hash/gnu-hash/verneed/verdef field computed by an independent struct.unpack scanner, cross-checked against '
-        'the writer model): every single field x every boundary value, every PAIR of constructor-relevant fields '
-        '(7 Ehdr fields, shdr[0] escape fields, name-table header) x boundary values, and Hypothesis-drawn 1-4 field '
-        'corruptions optionally combined with truncation / byte splices; optional atheris campaign on the '
-        'constructor. Oracle (a): ELFFile(BytesIO(data)) returns or raises ELFError. Oracle (b): each step of the '
-        'enumeration battery finishes (returning or raising) within a line-event budget (sys.settrace, elftools '
-        'frames only) and a requested-bytes budget (counting BytesIO), both affine in max(file length, 64 KiB). '
-        'Non-trivial: the input passes _identify_file (magic, EI_CLASS, EI_DATA valid) and differs from its seed '
-        'inside a region the battery reads (Ehdr, section/program header tables, dynamic/note/hash payloads), or, '
-        'for seedless random inputs, passes _identify_file and is long enough for the Ehdr to parse. Distinct by '
-        'SHA-1 of the input bytes.')
+        'files (header-only / sections / segments / full = dynamic+notes+hash+gnu-hash+versym+verneed+verdef+symtab '
+        'with PT_LOAD/PT_DYNAMIC/PT_NOTE / forced extended numbering; each for ELF32/64 x LSB/MSB, written by the '
+        'independent writer vf/enc/elf.py, refereed clean by readelf and llvm-readelf) and of the shipped ELF files '
+        '<= 4 KiB (quick tier: every length for files <= 1 KiB, first 128 lengths + header-table boundaries +-1 + '
+        'stride 31 for 1..4 KiB); truncation of larger shipped files at header-table entry boundaries +-1 (quick: files '
+        '<= 64 KiB, 9 boundaries each); every single-byte substitution of the first 64 bytes with {0x00,0xff,+1,^0x80}; '
+        'field-aware corruption (offsets of every Ehdr/Shdr/Phdr/Dyn/Nhdr/hash/gnu-hash/verneed/verdef field found by an '
+        'independent struct.unpack scanner that is cross-checked against the writer model): every single field x '
+        'boundary values {0,1,S-1,S,S+1,0xff00,0xffff,2^31,2^32-1,2^64-1,len-1,len,len+1,orig-1,orig+1} (S = size of '
+        'the structure the field belongs to or describes), every PAIR of constructor-relevant fields (7 Ehdr fields, '
+        'shdr[0] escape fields, name-table header fields) and every pair of fields inside one dynamic/note/hash '
+        'record x boundary values, and Hypothesis-drawn 1-4 field corruptions optionally combined with a truncation '
+        'or a byte splice; an atheris campaign on the constructor whose saved inputs are replayed through the same '
+        'oracle. Oracle (a): ELFFile(BytesIO(data)) returns or raises ELFError. Oracle (b): each step of the '
+        'enumeration battery finishes (returning or raising) within a line-event budget (sys.settrace, elftools frames '
+        'only) and a read budget (counting BytesIO), both proportional to max(file length, 64 KiB). Non-trivial: the '
+        'input passes _identify_file (magic, EI_CLASS, EI_DATA valid) and differs from its seed inside a region the '
+        'battery reads (Ehdr, section/program header tables, dynamic/note/hash payloads), or, for seedless inputs, '
+        'passes _identify_file and is long enough for the Ehdr to parse. Distinct by SHA-1 of the input bytes.')
 N = {'quick': 4800, 'thorough': 240000}
 
 # Work bounds, per battery step:  lines <= LINE_B[step] * max(len, 64 KiB),  bytes <= BYTE_B * max(len, 64 KiB).
-# Calibration (`python -m vf.checks.c19 measure`, unchanged tree, CPython 3.12, 20 generated seeds + the 109
-# shipped ELF files that open, dwarf_phantombytes.elf excluded from the byte figures because its debug sections
-# are typed SHT_NOTE and readelf itself reports "note with invalid namesz and/or descsz" for them):
-#   largest line-event count per max(len,64 KiB) byte      largest absolute count on a file <= 64 KiB
-#     iter_sections        0.790 (arm_exidx_test.o, 145 884 events, 508 sections, 184 628 B)     14 221
-#     iter_segments        0.194 (debuglink.debug, 12 705 events, 13 segments, 6 032 B)           12 705
-#     iter_tags            0.089 (android_dyntags.elf)                                              5 816
-#     dynseg.num_symbols   0.073 (angr-eh_frame.elf)                                                3 957
-#     iter_notes           0.037 (note_tc3xxx_blinky.elf, 120 355 events, 3 288 400 B)              1 973
-#     every other step   < 0.004                                                                  <= 255
+# Calibration (`python -m vf.checks.c19 measure`, unchanged tree, CPython 3.12): 20 generated seeds + the 110
+# non-empty shipped ELF files that open (2 more are rejected by the constructor).
+#   step                 largest line-event count per max(len,64 KiB) byte                    largest count, file <= 64 KiB
+#     iter_sections        0.790 (arm_exidx_test.o: 145 884 events, 508 sections, 184 628 B)     14 221 (exe_simple64.elf)
+#     iter_segments        0.194 (debuglink.debug: 12 705 events, 13 segments, 6 032 B)          12 705
+#     iter_tags            0.089 (android_dyntags.elf)                                             5 816
+#     dynseg.num_symbols   0.073 (angr-eh_frame.elf)                                               3 957
+#     iter_notes           0.037 (note_tc3xxx_blinky.elf: 120 355 events, 3 288 400 B)             1 973
+#     every other step   < 0.004                                                                 <= 255
 #   bytes delivered per step: at most 0.416 per byte (iter_notes, note_tc3xxx_blinky.elf); largest single read()
-#   request: 0.005 per byte (1 088 bytes, core_linux32.elf); including dwarf_phantombytes.elf: 4.9 and 45.7.
-# The constants are >= 100 x these ratios (A = 0):
+#   request: 0.005 per byte (1 088 bytes, core_linux32.elf).  dwarf_phantombytes.elf is left out of the two byte
+#   figures: its .debug_* sections are typed SHT_NOTE, readelf reports "note with invalid namesz and/or descsz" for
+#   them; iter_notes reads 4.9 bytes per byte there and asks for up to 8 257 552 bytes (45.7 per byte) in one read().
+# The constants are >= 100 x the ratios of the valid files (A = 0), and above what dwarf_phantombytes.elf needs:
 SIZE_FLOOR = 65536
 LINE_A = 0
-LINE_B = {'iter_sections': 80}    # 80 * 64 KiB = 5 242 880 line events (368 x the small-file maximum)
+LINE_B = {'iter_sections': 80}    # 80 * 64 KiB = 5 242 880 line events (368 x the small-file maximum of 14 221)
 LINE_B_DEFAULT = 20               # 20 * 64 KiB = 1 310 720 line events (103 x the small-file maximum of 12 705)
 BYTE_A, BYTE_B = 0, 256           # 256 * 64 KiB = 16 MiB, for bytes delivered per step and for a single read() request
 
 ASSUMPTIONS = [
-    'streams are io.BytesIO (subclass counting requested bytes); read(n) on BytesIO never allocates more than the '
-    'file, so the requested-bytes bound stands in for the allocation a real file object would make for read(n)',
-    'work is counted as line events in frames whose code lives under .../elftools/ (sys.settrace), per battery '
-    'step; C-level work without line events (max(), bytes.find) is bounded by the size of objects built under the '
-    'line budget',
-    'the constructor itself is not traced (its struct set-up costs ~4 800 line events independent of the data); '
-    'only its exception type is judged',
-    'budget constants: filled in by _measure(); see LINE_B/BYTE_B comment',
-    'tracemalloc peak (design) is not measured: with BytesIO streams every allocation proportional to a corrupted '
-    'count is built by Python-level loops (construct Array) that the line budget bounds',
+    'streams are io.BytesIO (a subclass that counts read() requests). BytesIO.read(n) never allocates more than the '
+    'file holds, so the bound on the size of a single read() request stands in for the allocation a real file object '
+    'makes (io.BufferedReader.read(n) allocates n bytes up front: tracemalloc peak 4 294 967 668 bytes for '
+    'read(2**32-1) on a 300-byte file, MemoryError for read(2**62))',
+    'work = line events in frames whose code object lives under .../elftools/ (sys.settrace), counted per battery step; '
+    'C-level work without line events (max(), bytes.find, struct.unpack) operates on objects that were built under '
+    'the line budget or on data delivered under the byte budget',
+    'budgets (A=0): line events <= B*max(len,65536) with B=80 for iter_sections and B=20 for every other step; bytes '
+    'delivered per step and size of one read() request <= 256*max(len,65536). Calibration on 20 generated + 110 '
+    'shipped valid files: iter_sections at most 0.790 events per max(len,64K) byte (arm_exidx_test.o, 145 884 events) '
+    'and 14 221 events on files <= 64 KiB; iter_segments 0.194 (12 705 events); iter_tags 0.089; '
+    'DynamicSegment.num_symbols 0.073; iter_notes 0.037; other steps < 0.004; bytes delivered at most 0.416 per byte, '
+    'single request at most 0.005 per byte. Every bound is >= 100 x the measured maximum; '
+    'dwarf_phantombytes.elf (junk typed SHT_NOTE; readelf warns) is excluded from the byte calibration but stays '
+    'below the bounds (4.9 / 45.7 per byte)',
+    'the budget is per step and per input (not cumulative over the battery), so the bucket names the step that ran away',
+    'the constructor itself is not traced (its struct set-up costs ~4 800 line events independent of the data and it '
+    'contains no data-dependent loop); only its exception type is judged',
+    'tracemalloc peak (named in the design) is not measured: with BytesIO streams every allocation proportional to a '
+    'corrupted count is built by Python-level loops (construct Array / list appends) that the line budget bounds, and '
+    'single large allocations can only come from read(n), which the request-size bound covers',
     'iter_versions is not part of the battery (the property statement lists headers, sections, segments, symbol '
-    'counts, dynamic tags, notes; the design battery has num_versions only)',
+    'counts, dynamic tags and notes; the design battery has num_versions only)',
+    'atheris (optional, /verif/.deps) fuzzes the constructor only; inputs it saves decide nothing until replayed through '
+    'run_case in the plain interpreter; absent atheris => counter atheris.skipped',
 ]
 
 MAGIC = b'\x7fELF'
@@ -460,9 +480,6 @@ def boundary_values(fld, orig, file_len):
     return out
 
 
-PAIR_VALUES_QUICK = ('zero', 'one', 'ffff', 'max', 'len+1', 'S-1')
-
-
 def pair_values(fld, orig, file_len, tier):
     if tier == 'thorough':
         return boundary_values(fld, orig, file_len)
@@ -742,14 +759,8 @@ def run_case(ctx, case):
         ctx.count('open.ok')
     except ELFError:
         ctx.count('open.ELFError' + ('' if ident else '.identify'))
-    except _Budget:
-        raise
-    except Exception as e:  # noqa - this is the property (a)
+    except Exception as e:  # noqa - property (a): anything but ELFError (incl. MemoryError, RecursionError) is a violation
         ctx.count('open.violation')
-        ctx.fail_exc('open', e, case)
-    except BaseException as e:  # noqa - MemoryError & co are Exceptions; this is SystemExit/KeyboardInterrupt/...
-        if isinstance(e, (KeyboardInterrupt, SystemExit)) and not case:
-            raise
         ctx.fail_exc('open', e, case)
     nsec = nseg = None
     if ef is not None:
@@ -792,7 +803,7 @@ def run_case(ctx, case):
         ctx.count('nontrivial.' + family)
     muts = case.get('muts') or []
     ctx.case(data, nt, {'src': case.get('src'), 'family': family,
-                        'muts': [mu[:2] + list(mu[2:]) if mu[0] != 'splice' else ['splice', mu[1], len(mu[2])] for mu in muts][:6],
+                        'muts': [list(mu) if mu[0] != 'splice' else ['splice', mu[1], len(mu[2])] for mu in muts[:6]],
                         'len': len(data), 'opened': ef is not None, 'sections': nsec, 'segments': nseg,
                         'head_hex': data[:64].hex()})
 
@@ -804,8 +815,8 @@ def _field_value(sc, seed, fld):
     return _u(seed, fld['off'], fld['size'], sc.le)
 
 
-NON_STEERING = ('sh_name', 'sh_addr', 'sh_addralign', 'p_vaddr', 'p_paddr', 'p_align', 'p_memsz', 'p_flags', 'e_entry',
-                'e_flags', 'e_version', 'e_ehsize')   # parsed by the battery but never used for an offset/count/type
+NON_STEERING = ('sh_addr', 'sh_addralign', 'p_paddr', 'p_align', 'p_memsz', 'p_flags', 'e_entry', 'e_flags', 'e_version',
+                'e_ehsize')   # parsed by the battery but never used for an offset, a count, a type or a lookup
 
 
 def enum_truncations(tier):
@@ -884,9 +895,9 @@ def enum_single_fields(tier):
 
 def pair_seeds(tier):
     if tier == 'thorough':
-        return ([s for s in gen_seed_names() if s[4:-4] in ('sec', 'full', 'xnum', 'seg')] +
+        return (gen_seed_names() +
                 ['file:' + p for p, sz in shipped_elfs() if sz <= 2048])
-    return [s for s in gen_seed_names() if s[4:-4] in ('sec', 'xnum', 'seg')] + ['gen:full64le', 'gen:full32be']
+    return [s for s in gen_seed_names() if s[4:-4] in ('min', 'sec', 'xnum', 'seg')] + ['gen:full64le', 'gen:full32be']
 
 
 def enum_field_pairs(tier):
@@ -942,8 +953,7 @@ def bulk(ctx, tier, shard, nshards):
             ctx.cur_buckets = set()
             run_case(ctx, case)
             ctx.count('bulk_cases')
-    if shard == nshards - 1:
-        run_atheris(ctx, tier)
+    run_atheris(ctx, tier, shard, nshards)
 
 
 def _sharded(en, tier, shard, nshards):
@@ -1015,7 +1025,7 @@ def strategy(tier):
 # ---------------------------------------------------------------------------
 # optional atheris campaign on the constructor
 
-ATHERIS_RUNS = {'quick': 4000, 'thorough': 400000}
+ATHERIS_RUNS = {'quick': 20000, 'thorough': 1600000}    # total over all shards
 
 _ATHERIS_TARGET = r'''
 import sys, os, io, hashlib, traceback
@@ -1045,7 +1055,7 @@ atheris.Fuzz()
 '''
 
 
-def run_atheris(ctx, tier):
+def run_atheris(ctx, tier, shard=0, nshards=1):
     import shutil
     import tempfile
     import subprocess
@@ -1066,7 +1076,8 @@ def run_atheris(ctx, tier):
         script = os.path.join(tmp, 'target.py')
         with open(script, 'w') as f:
             f.write(_ATHERIS_TARGET % {'deps': deps, 'repo': core.REPO, 'out': out, 'corpus': corpus,
-                                       'runs': ATHERIS_RUNS[tier], 'seed': ctx.seed})
+                                       'runs': max(ATHERIS_RUNS[tier] // nshards, 1),
+                                       'seed': ctx.seed * 1000 + shard + 1})
         r = subprocess.run([sys.executable, script], stdout=subprocess.PIPE, stderr=subprocess.STDOUT, cwd=tmp,
                            env=dict(os.environ, PYTHONDONTWRITEBYTECODE='1'))
         text = r.stdout.decode('utf-8', 'replace')
@@ -1090,6 +1101,18 @@ def run_atheris(ctx, tier):
 
 
 # ---------------------------------------------------------------------------
+
+def evidence_extra(ctx):
+    c = ctx.counters
+    return {
+        'budgets': {'line_events_per_byte': dict(LINE_B, default=LINE_B_DEFAULT), 'bytes_per_byte': BYTE_B,
+                    'size_floor': SIZE_FLOOR},
+        'atheris': ('skipped (not importable)' if c.get('atheris.skipped') else
+                    {'executions': c.get('atheris.executions', 0), 'inputs_replayed': c.get('atheris.replayed', 0),
+                     'failed_to_run': c.get('atheris.failed_to_run', 0)}),
+        'skipped': ['tracemalloc peak (see assumptions)'] + (['atheris'] if c.get('atheris.skipped') else []),
+    }
+
 
 def floors(ctx):
     out = []
